@@ -36,9 +36,11 @@ func TestCheck(t *testing.T) {
 			"for random upstream names (arbitrary bytes): while not leader the call must fail naming the table's leader (handler: silently) and the contents of every shard store (conditions + per-instance counts) must be unchanged; " +
 			"after a loss the shard has no store; after a regain nothing of the earlier epoch is visible; ServerInfo().ManagedShards == shards led; " +
 			"(3b) one (thorough: three) fault scenario on the k8s store: API writes fail exactly while the shard is lost (final flush fails, ~20 s of retries), an interim leader rewrites/deletes conditions in the API, the shard is regained: no store after the loss, and afterwards only what the API holds is visible (no in-flight count, no condition absent from or different from the API); " +
-			"(3c) one (thorough: three) scenario with the REAL elector (client-go leader election on leases of a fake kube clientset, 4 s lease / 0.6 s renew deadline) and the rateLimiter's real Run loops: the server gains the shard and serves; " +
+			"(3c) one (thorough: three) scenario with the REAL elector (client-go leader election on leases of a fake kube clientset, 4 s lease / 0.6 s renew deadline) and the periodic leaderCheck: the server gains the shard and serves; " +
 			"its lease updates start failing while the process stays alive; once the lease OBJECT has expired (renewTime + lease duration + margin < now, renewals still failing) 30 observations 100 ms apart: it must not name itself leader " +
 			"(IsLeader/GetLeaders/ServerInfo), must refuse allocate and acquire, must hold no store (leaderCheck runs every second); then another identity takes the lease: refusals must name it, still no store; " +
+			"(3d) two (thorough: four) real electors with 60 shards each (60 client-go elections side by side), all leases overwritten with another holder at once; per shard, after OnStoppedLeading and three further lease polls of that election: " +
+			"leader table, refusals and ServerInfo().Endpoints must name the lease holder, in whichever order client-go delivered OnNewLeader and OnStoppedLeading (both orders are counted); " +
 			"(4) k8s store over the generated fake clientset: Save of a foreign-shard condition refused (nothing written to the API or kept locally), Load keeps only own-shard conditions. " +
 			"Non-trivial = names/histories that exercise a refusal or a leadership change; distinct = hash of the name+N resp. of the history trace.")
 		r.Assume("between an election loss and the next leaderCheck the lost shard's store still exists; removing things from it (cleanup passes) is conforming (the statement demands the discard), writing into it is not")
@@ -71,6 +73,16 @@ func TestCheck(t *testing.T) {
 				realElectorScenario(r, rr)
 			}()
 		}
+		// many real elections side by side, all leases taken over at once (both client-go callback orders occur)
+		nTk := r.N(3, 5)
+		for k := 0; k < nTk; k++ {
+			wg.Add(1)
+			tr := r.Rng.Fork(fmt.Sprintf("real-takeover-%d", k))
+			go func() {
+				defer wg.Done()
+				realTakeoverScenario(r, tr, 60)
+			}()
+		}
 		wg.Add(1)
 		spRng := r.Rng.Fork("sparse")
 		go func() { // part 2b: sparse leader tables (needs ~3 x 2 sync rounds of wall time)
@@ -87,6 +99,8 @@ func TestCheck(t *testing.T) {
 		r.Require(r.Counter("gw_shard_count_grows") >= 1 && r.Counter("gw_shard_count_shrinks") >= 1 && r.Counter("gw_shard_count_changes_converged") >= 2, "gateway side did not see the fleet's shard count grow and shrink")
 		r.Require(r.Counter("gw_sparse_phases") >= 3 && r.Counter("gw_sparse_published_judged") >= 100 && r.Counter("gw_sparse_unpublished_judged") >= 10, "gateway side: sparse leader tables were not exercised")
 		r.Require(r.Counter("real_elector_scenarios") >= 1 && r.Counter("real_elector_checks_lease-expired") >= 20 && r.Counter("real_elector_checks_lease-held-by-other") >= 10, "the real-elector scenario did not complete")
+		r.Require(r.Counter("real_takeover_scenarios") >= 1 && r.Counter("real_takeover_shards_judged") >= 60, "the real-elector takeover scenario did not complete")
+		r.Require(r.Violations() > 0 || r.Counter("real_takeover_newleader_before_stop") >= 1, "no takeover showed client-go reporting the new leader before the end of the term (the order that matters was not exercised)")
 		r.Require(r.Counter("srv_flushfail_scenarios") >= 1 && r.Counter("srv_flushfail_conditions_compared_with_api") >= 1, "the flush-failure scenario (k8s store) did not complete")
 		r.Require(r.Counter("srv_refusals_judged") >= 1000, "server side judged too few not-leader calls")
 		r.Require(r.Counter("srv_served_allocate") >= 300 && r.Counter("srv_served_acquire_accepted") >= 300, "server side served too few calls while leading")
